@@ -42,6 +42,8 @@ type HistConfig struct {
 	PProtect       float64 // generated files of a package become read-only, or get clocks from the future / the past
 	Cgo            bool    // one package gets a file that imports "C"
 	PReuse         float64 // two runs on one executor (loaded once): the second with other generators or a muted one
+	IllTyped       bool    // one package declares a type on an undefined identifier
+	PTypeError     float64 // motif: an edit, a type error planted in a package it imports, a run in which a generator panics, the repair, a run
 	TwoModules     bool    // a second local module (replace directive or go.work), imported by the main one; entrypoints in the main module
 }
 
@@ -292,6 +294,9 @@ func DrawHistory(r *Rng, cfg HistConfig) (*Scenario, *histWorld) {
 	if cfg.Cgo {
 		AddCgoFile(r, m)
 	}
+	if cfg.IllTyped {
+		AddIllTyped(r, m, names)
+	}
 	if cfg.TwoModules && m.Sub == nil {
 		scfg := DrawSpecConfig(r, names, base)
 		nMain := len(m.Pkgs)
@@ -399,6 +404,44 @@ func DrawHistory(r *Rng, cfg HistConfig) (*Scenario, *histWorld) {
 			again := *mid
 			again.Fresh = false
 			ops = append(ops, Op{Kind: "touch", K: pi, Path: f, SameSize: true}, Op{Kind: "run", Run: mid}, Op{Kind: "run", Run: &again}, Op{Kind: "touch", K: pi, Path: f, SameSize: true, MTime: "keep"})
+		case r.P(cfg.PTypeError) && faulty < 2:
+			// package P is edited, a package Q that P imports gets a type error, an All run in which a generator
+			// panics (or fails) in P, Q is repaired, an All run: P was never generated from its edited state
+			var pairs [][2]int
+			for pi, p := range m.Pkgs {
+				for _, q := range p.Imports {
+					if !p.InSub && !m.Pkgs[q].InSub {
+						pairs = append(pairs, [2]int{pi, q})
+					}
+				}
+			}
+			var gname string
+			for _, g := range w.gens {
+				if isScripted(&g) {
+					gname = g.Name
+				}
+			}
+			if len(pairs) == 0 || gname == "" {
+				break
+			}
+			pq := Pick(r, pairs)
+			bad := w.drawRun(r, cfg)
+			bad.HasFirstGlobals, bad.FirstGlobals, bad.FirstGens, bad.Cwd = false, nil, nil, ""
+			bad.Gens = w.gens
+			bad.Args.All, bad.Args.Force, bad.Args.Entrypoint = true, false, []string{"./..."}
+			bad.Faults = []proto.Fault{{ExecSeq: -1, Kind: "gen", Gen: gname, Pkg: m.ImportPath(pq[0]), Nth: 0, Do: Pick(r, []string{"gen-panic", "gen-panic", "gen-error"})}}
+			good := *bad
+			good.Faults, good.Fresh = nil, true
+			// (the tree is at rest first: two full runs)
+			rest1, rest2 := good, good
+			rest2.Fresh = false
+			ops = append(ops, Op{Kind: "run", Run: &rest1}, Op{Kind: "run", Run: &rest2},
+				Op{Kind: "touch", K: pq[0], Path: m.Pkgs[pq[0]].Files[0].Name, Note: "before the broken run"},
+				Op{Kind: "touch", K: pq[1], Path: m.Pkgs[pq[1]].Files[0].Name, How: "break-types"},
+				Op{Kind: "run", Run: bad},
+				Op{Kind: "touch", K: pq[1], Path: m.Pkgs[pq[1]].Files[0].Name, Note: "repaired"},
+				Op{Kind: "run", Run: &good})
+			faulty++
 		case r.P(cfg.PReuse/3) && len(m.Pkgs) >= 2 && faulty < 2:
 			// a retry on the same executor after a failure half-way: the files are there (run 0); in the first
 			// call a generator has nothing to say for package A (its file is stale) and fails in package B,
@@ -701,10 +744,14 @@ func runHistory(c *CheckCtx, i int, r *Rng, cfg HistConfig) error {
 // and declaration kinds, under adversarial map orders.
 func SimC06(c *CheckCtx, i int, r *Rng) error {
 	cgo := i%50 == 12 && c.Env.CgoUsable()
+	ill := i%9 == 4
 	if cgo {
 		c.Env.Stats.Add("probe/cgo-world", 1)
 	}
-	return runHistory(c, i, r, HistConfig{Cgo: cgo, MinOps: 1, MaxOps: 4, PAll: 0.6, PForce: 0.5, PGlobals: 0.5, PSubsetGens: 0.2, PEdit: 0.1, PRetag: 0.3, PCancel: 0.15, PWarm: 0.05, PTwoPasses: 0.25, PGenFault: 0.15, PProtect: 0.12, PReuse: 0.12})
+	if ill {
+		c.Env.Stats.Add("probe/ill-typed-package-world", 1)
+	}
+	return runHistory(c, i, r, HistConfig{Cgo: cgo, IllTyped: ill, MinOps: 1, MaxOps: 4, PAll: 0.6, PForce: 0.5, PGlobals: 0.5, PSubsetGens: 0.2, PEdit: 0.1, PRetag: 0.3, PCancel: 0.15, PWarm: 0.05, PTwoPasses: 0.25, PGenFault: 0.15, PProtect: 0.12, PReuse: 0.12})
 }
 
 // SimC07: gengo only touches its own output files.
@@ -727,7 +774,7 @@ func SimC08(c *CheckCtx, i int, r *Rng) error {
 		return simWide(c, i, r)
 	}
 	return runHistory(c, i, r, HistConfig{MinOps: 4, MaxOps: 9, PAll: 0.85, PForce: 0.15, PGlobals: 0.1, PSubsetGens: 0.2, PEdit: 0.3, PStale: 0.05,
-		PSumOps: 0.2, PUnhashable: 0.06, PBreak: 0.04, PGenFault: 0.1, PIOFault: 0.12, PKill: 0.08, PMidEdit: 0.1, PConverge: 0.6, PFailAfterEdit: 0.12, PMute: 0.1, PReal: 0.08, PUniform: 0.4, PCancel: 0.04, PWarm: 0.06, PCwd: 0.1, PClock: 0.25, PProtect: 0.06})
+		PSumOps: 0.2, PUnhashable: 0.06, PBreak: 0.04, PGenFault: 0.1, PIOFault: 0.12, PKill: 0.08, PMidEdit: 0.1, PConverge: 0.6, PFailAfterEdit: 0.12, PMute: 0.1, PReal: 0.08, PUniform: 0.4, PCancel: 0.04, PWarm: 0.06, PCwd: 0.1, PClock: 0.25, PProtect: 0.06, PTypeError: 0.06})
 }
 
 // simWide: a module with many local packages (a size no small world reaches: code that switches
